@@ -16,7 +16,10 @@ EXPLANATION = (
     "(remove/clear/retain/unguarded insert) is reported; (W3) each insert into the name index and the structural index is guarded "
     "by a lookup of the same map whose hit branch does not reach the insert; (W4) each insert into id_to_entry uses a freshly "
     "allocated id or an id of the current call's batch, in-place mutation happens only in the cycle breaker; (W5) TypeId's field, "
-    "TypeSpace's and Type's fields are private and the IR types are not exported, so ids and entries can only come from the space."
+    "TypeSpace's and Type's fields are private and the IR types are not exported, so ids and entries can only come from the space; "
+    "(W3, exactness) when an insert into name_to_id can run on a hit, the rejecting guard is exactly `existing != inserted "
+    "id` and the lookup uses the inserted key; (W6) the IR types inside the key of the structural dedup map derive PartialEq, "
+    "PartialOrd and Ord together; (W7) no public ingestion entry returns anything but an error before converting its schema."
 )
 ASSUMPTIONS = ["BTreeMap/BTreeSet semantics of std", "no unsafe code in typify-impl (checked: 0 unsafe blocks reported by the driver's HIR)"]
 
